@@ -45,6 +45,9 @@ func origin(v ssa.Value, conv bool, depth int) ssa.Value {
 			}
 			st := uniqueStore(cell)
 			if st == nil {
+				st = localReachingStore(cell, x)
+			}
+			if st == nil {
 				return v
 			}
 			v = st.Val
@@ -499,4 +502,93 @@ func CallArgs(cc *ssa.CallCommon) []ssa.Value {
 		return append([]ssa.Value{cc.Value}, cc.Args...)
 	}
 	return cc.Args
+}
+
+// localReachingStore: the store to cell that precedes load in the same basic
+// block (same function as the cell), provided nothing in between can write
+// the cell: the cell's address does not escape, and if a closure capturing
+// it stores to it, no call lies in between.
+func localReachingStore(cell *ssa.Alloc, load *ssa.UnOp) *ssa.Store {
+	if load.Parent() != cell.Parent() || cellEscapes(cell) {
+		return nil
+	}
+	closureWrites := false
+	for _, st := range cellStores(cell) {
+		if st.Parent() != cell.Parent() {
+			closureWrites = true
+		}
+	}
+	b := load.Block()
+	var last *ssa.Store
+	for _, in := range b.Instrs {
+		if in == ssa.Instruction(load) {
+			return last
+		}
+		switch x := in.(type) {
+		case *ssa.Store:
+			if x.Addr == ssa.Value(cell) {
+				last = x
+			}
+		case ssa.CallInstruction:
+			if closureWrites {
+				last = nil
+			}
+		case *ssa.RunDefers:
+			if closureWrites {
+				last = nil
+			}
+		}
+	}
+	return nil
+}
+
+// LiteralFields returns the field values of a struct built in place: v is a
+// load of a local struct cell (T{...}) or the cell / pointer itself (&T{...}).
+// Fields never stored are absent (zero).  ok=false if v is not such a literal
+// or a field is stored more than once.
+func LiteralFields(v ssa.Value) (map[string]ssa.Value, *ssa.Alloc, bool) {
+	var al *ssa.Alloc
+	switch x := v.(type) {
+	case *ssa.Alloc:
+		al = x
+	case *ssa.UnOp:
+		if x.Op == token.MUL {
+			al, _ = x.X.(*ssa.Alloc)
+		}
+	case *ssa.MakeInterface:
+		return LiteralFields(x.X)
+	case *ssa.ChangeType:
+		return LiteralFields(x.X)
+	}
+	if al == nil {
+		return nil, nil, false
+	}
+	if _, isStruct := Deref(al.Type()).Underlying().(*types.Struct); !isStruct {
+		return nil, nil, false
+	}
+	out := map[string]ssa.Value{}
+	refs := al.Referrers()
+	if refs == nil {
+		return out, al, true
+	}
+	for _, r := range *refs {
+		switch u := r.(type) {
+		case *ssa.FieldAddr:
+			name := FieldName(al.Type(), u.Field)
+			for _, rr := range *u.Referrers() {
+				if st, ok := rr.(*ssa.Store); ok && st.Addr == ssa.Value(u) {
+					if _, dup := out[name]; dup {
+						return nil, al, false
+					}
+					out[name] = st.Val
+				}
+			}
+		case *ssa.Store:
+			if u.Addr == ssa.Value(al) {
+				// whole-struct store (e.g. parameter spill): not a literal
+				return nil, al, false
+			}
+		}
+	}
+	return out, al, true
 }
